@@ -71,7 +71,7 @@ Proof.
   rewrite (ignored_step own a s it E). reflexivity.
 Qed.
 
-(* ---- chk_inert: the model passes whenever the tags are justified and none is of the counter class ---- *)
+(* ---- chk_inert: the model passes whenever the tags are justified ---- *)
 Lemma filter_bad_cons (t : tag) (it : item) rest :
   filter (fun p : tag * item => negb (is_bad (fst p))) ((t, it) :: rest) =
   if is_bad t then filter (fun p => negb (is_bad (fst p))) rest
@@ -79,7 +79,7 @@ Lemma filter_bad_cons (t : tag) (it : item) rest :
 Proof. cbn. destruct (is_bad t); reflexivity. Qed.
 
 Lemma inert_differential own a : forall items s,
-  tags_justified own a s items = true -> has_counter_class own a s items = false ->
+  tags_justified own a s items = true ->
   let A := run own a s (map snd items) in
   let B := run own a s (map snd (filter (fun p => negb (is_bad (fst p))) items)) in
   fst A = fst B /\
@@ -89,29 +89,27 @@ Lemma inert_differential own a : forall items s,
       (filter (fun p : tag * item * list eff => negb (is_bad (fst (fst p)))) (combine items (snd A))) =
   map (filter observable) (snd B).
 Proof.
-  induction items as [|[t it] rest IH]; intros s HJ HC; [repeat split|].
+  induction items as [|[t it] rest IH]; intros s HJ; [repeat split|].
   cbn [tags_justified] in HJ. apply andb_true_iff in HJ. destruct HJ as [HJ1 HJ2].
-  cbn [has_counter_class] in HC. apply orb_false_iff in HC. destruct HC as [HC1 HC2].
   cbn zeta. rewrite filter_bad_cons.
   destruct (is_bad t) eqn:Bt; cbn [negb andb] in *.
   - destruct (classify own s it) as [c|] eqn:Cl; [|discriminate HJ1].
-    assert (NC : c <> BCallbackCounter) by (intros ->; discriminate HC1).
-    destruct (inert_step own a s it c Cl NC) as (E1 & E2).
+    destruct (inert_step own a s it c Cl) as (E1 & E2).
     cbn [map snd]. rewrite run_cons. cbn [fst snd combine forallb filter]. rewrite Bt. cbn [negb].
     rewrite E1 in *. rewrite E2. cbn [is_nil andb].
-    specialize (IH s HJ2 HC2). cbn zeta in IH. exact IH.
+    specialize (IH s HJ2). cbn zeta in IH. exact IH.
   - cbn [map snd]. rewrite !run_cons. cbn [fst snd combine forallb filter map]. rewrite Bt. cbn [negb map fst snd].
-    specialize (IH (fst (step own a s it)) HJ2 HC2). cbn zeta in IH.
+    specialize (IH (fst (step own a s it)) HJ2). cbn zeta in IH.
     destruct IH as (I1 & I2 & I3). repeat split; [exact I1|exact I2|]. rewrite I3. reflexivity.
 Qed.
 
 Theorem chk_inert_model own a s items :
-  tags_justified own a s items = true -> has_counter_class own a s items = false ->
+  tags_justified own a s items = true ->
   let A := run own a s (map snd items) in
   let B := run own a s (map snd (filter (fun p => negb (is_bad (fst p))) items)) in
   chk_inert items (snd A) (snd B) (fst A) (fst B) = true.
 Proof.
-  intros HJ HC A B. destruct (inert_differential own a items s HJ HC) as (E1 & E2 & E3).
+  intros HJ A B. destruct (inert_differential own a items s HJ) as (E1 & E2 & E3).
   fold A B in E1, E2, E3. unfold chk_inert. rewrite E2, E3, E1.
   rewrite segs_eqb_refl, mgr_eqb_refl. reflexivity.
 Qed.
@@ -161,11 +159,10 @@ Proof.
   rewrite H1. apply Nat.leb_le in H2. rewrite H2. reflexivity.
 Qed.
 
-(* the premises of chk_inert_model hold on a scenario with tagged messages in a non-trivial state *)
+(* the premise of chk_inert_model holds on a scenario with tagged messages in a non-trivial state *)
 Example chk_inert_premises :
   let items := [(TBad, IMsg (Examples.cbmsg Examples.A (PInt 9%Z)) None None [Some RuntimeError]);
                 (TNone, IMsg (Examples.cbmsg Examples.A (PInt 1%Z)) None None []);
                 (TBad, IMsg (PBytes [1]) (Some (PStr (s2l "a method"))) None [])] in
-  tags_justified Examples.A false Examples.s0 items = true /\
-  has_counter_class Examples.A false Examples.s0 items = false.
-Proof. vm_compute. split; reflexivity. Qed.
+  tags_justified Examples.A false Examples.s0 items = true.
+Proof. vm_compute. reflexivity. Qed.
